@@ -518,6 +518,20 @@ def run(ctx, only=None):
                   lambda: [complex(v) for v in _vex([tstate(rw, r) for rw in sts_], tpauli(Pq)).tolist()], (sts_, r, Pq),
                   cmp=lambda a_, b_: len(a_) == len(b_) and all(abs(x_ - y_) < 1e-5 for x_, y_ in zip(a_, b_)))
         terms_v = [((G.rand_observable(rng, rows, n, r)[0][0], rng.randrange(4)), complex(rng.choice([1, -2, 0.5])) * rng.choice([1, 1j])) for _ in range(3)]
+        # ... and against the Lean model of the batched entry point (T.vexpectPoly / T.vexpectList; theorems C13_vexpectPoly, C07_batched_expect_is_trace)
+        rc_ = lambda z_: (round(complex(z_).real, 4) + 0.0, round(complex(z_).imag, 4) + 0.0)
+        try:
+            if only is not None and 'vectorizable_expct(PauliPolynomial)' not in only:
+                raise StopIteration
+            tv_ = [rc_(v) for v in _vex([tstate(rw, r) for rw in sts_], tpoly(terms_v)).tolist()]
+            ctx.q('T.vexpectPoly', 'T.vexpectpoly %d %s %s' % (r, ';'.join(H.erows_ops(rw) for rw in sts_), E.epoly([O.to_g(t[0][0]) for t in terms_v], [t[0][1] for t in terms_v], [t[1] for t in terms_v])),
+                  tv_, lambda s_: [rc_(E.dcx(x_)) for x_ in s_.split(';')])
+            tl_ = [[ival(v) for v in row_] for row_ in _vex([tstate(rw, r) for rw in sts_], tlist(obs_, n)).tolist()]
+            ctx.q('T.vexpectList', 'T.vexpectlist %d %s %s' % (r, ';'.join(H.erows_ops(rw) for rw in sts_), H.erows_ops(obs_)), tl_, lambda s_: [E.dints(x_) for x_ in s_.split(';')])
+        except StopIteration:
+            pass
+        except Exception as e_:
+            ctx.fail('torch.vectorizable_expct', 'torchclifford raised %r' % (e_,), dict(states=sts_, r=r, terms=terms_v, obs=obs_))
         probe('vectorizable_expct(PauliPolynomial)', lambda: [complex(impl.state(rw, r).expect(impl.poly(terms_v))) for rw in sts_],
               lambda: [complex(v) for v in _vex([tstate(rw, r) for rw in sts_], tpoly(terms_v)).tolist()], (sts_, r, terms_v),
               cmp=lambda a_, b_: len(a_) == len(b_) and all(abs(x_ - y_) < 1e-5 for x_, y_ in zip(a_, b_)))
